@@ -56,9 +56,9 @@ func (a *An) c05CounterTable() {
 		_ = recT
 		fld := a.MustField("keyPairCounter", "theirCounter")
 		for _, ord := range []struct {
-			name     string
-			nv, sv   int64
-			accept   bool
+			name   string
+			nv, sv int64
+			accept bool
 		}{{"new<stored", 5, 9, false}, {"new=stored", 9, 9, false}, {"new>stored", 10, 9, true}} {
 			vals := valCase{newT: ord.nv, storedT: ord.sv}
 			paths, complete := a.C.Paths(fn, a.C.valOracle(vals, nil), 64)
